@@ -200,18 +200,34 @@ def hyp_settings(max_examples: int, **kw):
     )
 
 
+DRIVE_CHUNK = 500
+
+
 def drive(strategy, fn: Callable[[Any], None], seed: int, max_examples: int) -> None:
     """Run fn over max_examples draws of strategy, deterministically from seed.
 
     fn must not raise on oracle failure (collect mode); exceptions are harness errors.
+    Large counts are split into runs of DRIVE_CHUNK examples with derived seeds: Hypothesis keeps a tree of everything it
+    generated in one run, which for thousands of large documents grows to gigabytes per worker.
     """
+    import gc
+
     import hypothesis
     from hypothesis import given
 
-    @hypothesis.seed(seed)
-    @hyp_settings(max_examples)
-    @given(strategy)
-    def _t(case):
-        fn(case)
+    done = 0
+    i = 0
+    while done < max_examples:
+        n = min(DRIVE_CHUNK, max_examples - done)
 
-    _t()
+        @hypothesis.seed((seed + 7919 * i) % (2**63))
+        @hyp_settings(n)
+        @given(strategy)
+        def _t(case):
+            fn(case)
+
+        _t()
+        done += n
+        i += 1
+        if i % 4 == 0:
+            gc.collect()
